@@ -99,30 +99,67 @@ def inline_aliases(body, params, keep=()):
                     closure_used.add(x.id)
     keep = set(keep) | closure_used
 
+    # source order of every node, and where each name is stored: an alias whose expression mentions a name that is
+    # stored again LATER (e.g. a parameter that is re-bound) must not be moved past that store
+    order = {}
+
+    def number(node):
+        order[id(node)] = len(order)
+        for ch in ast.iter_child_nodes(node):
+            if not isinstance(ch, (ast.FunctionDef, ast.ClassDef, ast.expr_context, ast.operator, ast.cmpop, ast.boolop, ast.unaryop)):
+                number(ch)
+    for st_ in body:
+        number(st_)
+    store_pos = {}
+    for n in walk_own(body):
+        if isinstance(n, ast.Name) and isinstance(n.ctx, (ast.Store, ast.Del)) and id(n) in order:
+            store_pos.setdefault(n.id, []).append(order[id(n)])
+
+    def rhs_stable(st, val):
+        here = max((order.get(id(x), -1) for x in ast.walk(st) if isinstance(x, (ast.stmt, ast.expr))), default=-1)
+        inner_bound = set()
+        for x in ast.walk(val):
+            if isinstance(x, ast.Lambda):
+                inner_bound |= {a.arg for a in x.args.args + x.args.kwonlyargs + x.args.posonlyargs}
+            if isinstance(x, ast.comprehension):
+                inner_bound |= {y.id for y in ast.walk(x.target) if isinstance(y, ast.Name)}
+        for x in ast.walk(val):
+            if isinstance(x, ast.Name) and isinstance(x.ctx, ast.Load) and x.id not in inner_bound:
+                if any(pos > here for pos in store_pos.get(x.id, [])):
+                    return False
+        return True
+
     def loads_within(name, loop):
         inside = sum(1 for x in ast.walk(loop) if isinstance(x, ast.Name) and isinstance(x.ctx, ast.Load) and x.id == name)
         return inside == loads.get(name, 0)
 
-    def collect(stmts, in_loop):
+    def collect(stmts, in_loop, in_try=None):
         for st in stmts:
             if isinstance(st, (ast.Assign, ast.AnnAssign)):
                 tgt = st.targets[0] if isinstance(st, ast.Assign) and len(st.targets) == 1 else getattr(st, "target", None)
                 val = st.value
                 if in_loop is not None and not (isinstance(tgt, ast.Name) and loads_within(tgt.id, in_loop)):
                     pass
+                elif in_try is not None and not (isinstance(tgt, ast.Name) and loads_within(tgt.id, in_try)):
+                    pass  # an expression evaluated under a handler must not be moved out of the protected block
                 elif isinstance(tgt, ast.Name) and val is not None and counts.get(tgt.id) == 1 \
                         and (tgt.id not in mutated or _is_ref_chain(val)) \
-                        and tgt.id not in keep and _is_inlinable_rhs(val) and loads.get(tgt.id, 0) >= 1:
+                        and tgt.id not in keep and _is_inlinable_rhs(val) and loads.get(tgt.id, 0) >= 1 \
+                        and rhs_stable(st, val):
                     if not isinstance(val, (ast.List, ast.Dict, ast.Set, ast.ListComp, ast.DictComp, ast.SetComp, ast.GeneratorExp)) \
                             or True:
                         aliases[tgt.id] = (st, val)
             for fld in ("body", "orelse", "finalbody"):
                 sub = getattr(st, fld, None)
                 if isinstance(sub, list) and sub and isinstance(sub[0], ast.stmt):
-                    collect(sub, st if isinstance(st, (ast.For, ast.While)) else in_loop)
+                    if isinstance(st, ast.Try) and fld == "body":
+                        holder = ast.Module(body=sub, type_ignores=[])
+                        collect(sub, in_loop, holder)
+                    else:
+                        collect(sub, st if isinstance(st, (ast.For, ast.While)) else in_loop, in_try)
             if isinstance(st, ast.Try):
                 for h in st.handlers:
-                    collect(h.body, in_loop)
+                    collect(h.body, in_loop, in_try)
 
     collect(body, None)
     if not aliases:
@@ -370,9 +407,10 @@ def _private_callee(call, func, prog, allow_public_local=False):
     target = None
     skip = 0
     if isinstance(call.func, ast.Name) and (call.func.id.startswith("_") or allow_public_local
-                                            or call.func.id in getattr(func, "nested", {})):
+                                            or call.func.id in getattr(func, "nested", {})
+                                            or call.func.id not in anchor_names()):
         r = prog.resolve_in(func, call.func.id)
-        if r and r[0] == "func" and r[1].module is func.module and not r[1].decorators:
+        if r and r[0] == "func" and not r[1].decorators and (r[1].module is func.module or r[1].cls is None):
             target = r[1]
         elif call.func.id in getattr(func, "nested", {}) and not func.nested[call.func.id].decorators:
             target = func.nested[call.func.id]
